@@ -708,9 +708,13 @@ def order_sensitive_programs(rng, n):
         es = [Let(nm, I(i)) for i, nm in enumerate(names)]
         for i in range(rng.randint(3, 9)):
             ps = ['p%d' % j for j in range(rng.randint(0, 3))]
+            # blocks that close with several dead locals, followed by new locals (slot numbering must not depend on hashing)
+            dead = lambda tag: Blk([Let('%s%d_%d' % (tag, i, j), I(j)) for j in range(rng.randint(2, 5))] + [Pr('~;', [V('%s%d_0' % (tag, i))])])
             body = Blk([Let('l%d' % j, I(j)) for j in range(rng.randint(1, 5))] +
                        [If(Op('<', V(rng.choice(names)), I(5)), Blk([Let('in%d' % i, I(1)), Pr('~;', [V('in%d' % i)])]), Pr('e;')),
-                        Op('+', V('l0'), V(rng.choice(names)))])
+                        dead('da'), Let('after%d' % i, I(7)), dead('db'), Let('later%d' % i, Op('+', V('after%d' % i), I(1))),
+                        Blk([Let('x', I(1)), Blk([Let('x', I(2)), Let('y', I(3)), Pr('~ ~;', [V('x'), V('y')])]), Let('z', V('x')), Pr('~;', [V('z')])]),
+                        Op('+', V('l0'), Op('+', V('later%d' % i), V(rng.choice(names))))])
             es.append(Fun('fn%s%d' % (rng.choice('xyz'), i), ps, body))
         fields = list(dict.fromkeys(rng.choice('abcxyzABC_') + rng.choice('abcxyz019_') for _ in range(rng.randint(3, 10))))
         members = [Let(f, I(i)) for i, f in enumerate(fields)] + [Fun('m%d' % i, [], I(i)) for i in range(rng.randint(1, 5))]
